@@ -18,10 +18,11 @@ Inductive val :=
 | VOpt (o : option val)
 | VSpan (s e : nat)
 | VSlice (s e : nat)               (* token-index range of a to_slice result *)
-| VTag (k : nat) (v : val).
+| VTag (k : nat) (v : val)
+| VNew.                              (* a freshly created drop-tracked output (C19) *)
 
 (* ---------- closure language (interpreted identically by the Rust harness) ---------- *)
-Inductive fn1 := FId | FTag (k : nat) | FConst (n : nat) | FFst | FSnd | FDup.
+Inductive fn1 := FId | FTag (k : nat) | FConst (n : nat) | FFst | FSnd | FDup | FNew.
 
 Fixpoint first_tok (v : val) : option tok :=
   match v with
@@ -41,6 +42,7 @@ Definition ap1 (f : fn1) (v : val) : val :=
   | FFst => match v with VPair a _ => a | _ => v end
   | FSnd => match v with VPair _ b => b | _ => v end
   | FDup => VPair v v
+  | FNew => VNew
   end.
 
 Fixpoint list_eqN (a b : list tok) : bool :=
@@ -150,6 +152,8 @@ Inductive G :=
 | Rec (a : G)                       (* recursive(|p| a) / Recursive::declare + define; Var 0 is p *)
 | Var (k : nat)                     (* de Bruijn reference to the k-th enclosing Rec *)
 | Pratt (atom : G) (ops : list pop) (* atom.pratt(ops): operators are tried in list order *)
+| GroupArr (gs : list G)            (* group([..; N]): the array form (MaybeUninit storage, see Model/Ledger.v) *)
+| NestedIn (a : G)                  (* a.nested_in(select_ref! { Group(children) => children as input }) *)
 with pop :=
 | PInfix (rassoc : bool) (bp : nat) (og : G) (k : nat)
 | PPrefix (bp : nat) (og : G) (k : nat)
